@@ -33,10 +33,13 @@ mod methods {
     }
 
     fn string(arg: Duration) -> String {
-        format!(
-            "{}s",
-            arg.num_nanoseconds().unwrap() as f64 / 1_000_000_000.0
-        )
+        // the nanosecond count of a long duration (beyond about 292 years)
+        // does not fit an i64; the millisecond count always does
+        let seconds = match arg.num_nanoseconds() {
+            Some(nanos) => nanos as f64 / 1_000_000_000.0,
+            None => arg.num_milliseconds() as f64 / 1_000.0,
+        };
+        format!("{}s", seconds)
     }
 
     fn string(arg: CelValue) -> CelResult<String> {
